@@ -1,6 +1,6 @@
 ---------------------------- MODULE SigHeader_MC ----------------------------
 EXTENDS SigHeader, Json
 SigT(sg) == [j \in DOMAIN sg |-> <<sg[j].kind, sg[j].by>>]
-Row == <<"H", Which, hdr.bk, SigT(hdr.sigs), accepted', IF Which = "ledger" THEN LedgerOK(hdr) ELSE SyncOK(hdr), HasDup(hdr.bk)>>
+Row == <<"H", Which, hdr.bk, SigT(hdr.sigs), accepted', IF Which = "ledger" THEN LedgerOK(hdr) ELSE SyncOK(hdr), HasDup(hdr.bk), peers>>
 Edge == (act'.name \in {"AddHeader", "SyncBlockHeader"}) => PrintT(<<"ROW", ToJson(Row)>>)
 =============================================================================
